@@ -74,10 +74,11 @@ pub fn li_canonicalize(v: &[u8]) -> String {
 }
 pub fn li_roundtrip(v: &[u8]) -> String {
     match LanguageIdentifier::from_bytes(v) {
-        Ok(li) => match LanguageIdentifier::from_bytes(li.to_string().as_bytes()) {
+        // what Display writes (under any formatter flags) is the text that parses back
+        Ok(li) => if let Some(e) = fmt_flags(&li) { e } else { match LanguageIdentifier::from_bytes(li.to_string().as_bytes()) {
             Ok(li2) => if li2 == li { "OK same".into() } else { format!("DIFF {:?} vs {:?}", li, li2) },
             Err(_) => "REPARSE-ERR".into(),
-        },
+        } },
         Err(e) => lierr(&e),
     }
 }
